@@ -11,7 +11,7 @@ dispatching), terminal references dropped early.  A minority of operations delib
 application no longer holds (the harness answers `skip`), so that the bookkeeping itself is compared.
 Every history ends with `end` (drop everything, leak check).
 
-Families (--tier quick: ~1200 histories, thorough: ~6000 per seed):
+Families (--tier quick: 3000 histories, thorough: 15000 per seed):
   tree      window lifecycles without handlers
   handlers  lifecycles with key/mouse handlers acting on their own window / ancestors (the property's case)
   foreign   handlers that close, unref, hide or restack *other* windows (siblings in the middle of the walk, drag sources)
@@ -246,7 +246,7 @@ if a.tier == "exhaustive":
     info = {"exhaustive_bound": "all sequences of <=3 (and a seed-selected quarter of the length-4) operations over a 13-letter lifecycle alphabet on root>1>2, 3 sibling of 1, one pen, one self-unref key handler; each followed by flush and end", "histories": nh}
 else:
     scale = 1 if a.tier == "quick" else 5
-    fams = {"tree": 340, "handlers": 320, "foreign": 160, "objects": 220, "copyout": 200}
+    fams = {"tree": 800, "handlers": 800, "foreign": 400, "objects": 500, "copyout": 500}
     if a.families:
         fams = {k: v for k, v in fams.items() if k in a.families.split(",")}
     for fam, n in fams.items():
